@@ -28,6 +28,8 @@ package updates
 //@ ensures forall k: string :: (k in *b) && !old(k in *a) ==> ((k in *a) && (*a)[k] == (*b)[k])
 //@ ensures forall k: string :: (k in *a) ==> (old(k in *a) || (k in *b))
 //@ ensures forall k: string :: old(k in *a) && !(k in *b) ==> ((k in *a) && (*a)[k] == old((*a)[k]))
+// a set column that can hold more than one value is merged as a set, never as an atom (C10/C11)
+//@ at call updates.mergeAtomicDifference requires istype(v, "ovsdb.OvsSet") && k != "_uuid" && (k in ts.Columns) ==> (ts.Columns[k].TypeObj.max != nil && *ts.Columns[k].TypeObj.max == 1 || ts.Columns[k].TypeObj.max == nil)
 //@ loop 1 invariant *a == aMod && *b == bMod && aMod != nil
 //@ loop 1 invariant forall k: string :: (k in bMod) == old(k in bMod)
 //@ loop 1 invariant forall k: string :: (k in bMod) ==> bMod[k] == old(bMod[k])
